@@ -313,6 +313,10 @@ func setPatchDiffElementContext(patch []patchElement, d *DiffElement) ([]patchEl
 		// Not an array
 		return patch, nil
 	}
+	if pointerParent(patch[0].Path) != pointerParent(patch[1].Path) {
+		// Not the same array
+		return patch, nil
+	}
 	switch {
 	case firstIndex == secondIndex && (patch[1].Op == "replace" || patch[1].Op == "remove"):
 		// No before or after context.
@@ -356,6 +360,10 @@ func setPatchDiffElementContext(patch []patchElement, d *DiffElement) ([]patchEl
 	if !ok {
 		return nil, fmt.Errorf("expected path for array. got %q", patch[2].Path)
 	}
+	if pointerParent(patch[2].Path) != pointerParent(patch[1].Path) {
+		// Not the same array
+		return patch, nil
+	}
 	switch {
 	case (patch[2].Op == "test" || patch[2].Op == "add") && thirdIndex <= secondIndex:
 		// Before and after context.
@@ -392,6 +400,15 @@ func setPatchDiffElementContext(patch []patchElement, d *DiffElement) ([]patchEl
 		// Something else.
 		return patch, nil
 	}
+}
+
+// pointerParent returns the JSON Pointer of the container holding the
+// location s points to.
+func pointerParent(s string) string {
+	if i := strings.LastIndex(s, "/"); i >= 0 {
+		return s[:i]
+	}
+	return s
 }
 
 func readPatchDiffElement(patch []patchElement) (DiffElement, []patchElement, error) {
